@@ -77,53 +77,93 @@ def write_replay(prop, res, f, extra):
     return path
 
 
-def run_check(prop, tier, jobs):
-    t0 = time.time()
-    seed = int(os.environ.get('VERIF_SEED', '0') or 0)
+def plan_tasks(prop, tier, builts, wd, build_errors, compile_violations):
+    """the proofs (configuration, function[@case]) that carry obligations of one property in one tier"""
     cfgs = TIERS[tier]
     plan = QUICK.get(prop) if tier == 'quick' else None
     if plan is not None:
         cfgs = [c for c in cfgs if c in plan]
-    wd = verif.workdir()
     tasks = []
-    builts = {}
-    build_errors = []
-    compile_violations = []
     all_spec_names = set(); found_names = set()
-    try:
-        for cn in cfgs:
-            if CONFIGS[cn].get('props') is not None and prop not in CONFIGS[cn]['props']:
-                continue
+    for cn in cfgs:
+        if CONFIGS[cn].get('props') is not None and prop not in CONFIGS[cn]['props']:
+            continue
+        if cn not in builts:
             try:
-                b = verif.build(cn, wd)
+                builts[cn] = verif.build(cn, wd)
             except Exception as e:
-                if CONFIGS[cn].get('compile_obligation') == prop and 'clang failed' in str(e):
-                    # the instantiation TU of a minimal-requirement archetype does not compile: the header demands more than documented
-                    compile_violations.append((cn, str(e)))
-                else:
-                    build_errors.append('%s: extraction failed: %s' % (cn, str(e)[:500]))
+                builts[cn] = e
+        b = builts[cn]
+        if isinstance(b, Exception):
+            if CONFIGS[cn].get('compile_obligation') == prop and 'clang failed' in str(b):
+                # the instantiation TU of a minimal-requirement archetype does not compile: the header demands more than documented
+                compile_violations.append((cn, str(b)))
+            else:
+                build_errors.append('%s: extraction failed: %s' % (cn, str(b)[:500]))
+            continue
+        if plan is not None:
+            # quick tier: the planned proofs of this property in this configuration
+            for item in plan[cn]:
+                fn0 = item.split('@')[0]
+                all_spec_names.add(fn0)
+                if fn0 in b.model.specs and fn0 in b.model.em.by_cname:
+                    found_names.add(fn0)
+                    tasks.append((b, item))
+            continue
+        for fn, sp in sorted(b.model.specs.items()):
+            if sp.harness is None:
                 continue
-            builts[cn] = b
-            if plan is not None:
-                # quick tier: the planned proofs of this property in this configuration
-                for item in plan[cn]:
-                    fn0 = item.split('@')[0]
-                    all_spec_names.add(fn0)
-                    if fn0 in b.model.specs and fn0 in b.model.em.by_cname:
-                        found_names.add(fn0)
-                        tasks.append((b, item))
-                continue
-            for fn, sp in sorted(b.model.specs.items()):
-                if sp.harness is None:
-                    continue
-                all_spec_names.add(fn)
-                if fn not in b.model.em.by_cname:
-                    continue            # not instantiated in this configuration
-                found_names.add(fn)
-                if b.cfg.get('only') is not None and fn not in b.cfg['only']:
-                    continue            # proved in the base configuration: this configuration only re-proves what depends on it
-                if relevant(sp, prop):
-                    tasks.append((b, fn))
+            all_spec_names.add(fn)
+            if fn not in b.model.em.by_cname:
+                continue            # not instantiated in this configuration
+            found_names.add(fn)
+            if b.cfg.get('only') is not None and fn not in b.cfg['only']:
+                continue            # proved in the base configuration: this configuration only re-proves what depends on it
+            if relevant(sp, prop):
+                tasks.append((b, fn))
+    for nm in sorted(all_spec_names - found_names):
+        build_errors.append('contract target %s exists in no configuration of this tier (renamed or removed?)' % nm)
+    return cfgs, tasks
+
+
+def run_check(prop, tier, jobs):
+    """one property, or several separated by commas (each proof is then run once and reported under every property it carries)"""
+    props = prop.split(',')
+    t0 = time.time()
+    wd = verif.workdir()
+    builts = {}
+    plans = {}
+    try:
+        for pr in props:
+            be = []; cv = []
+            cfgs, tasks = plan_tasks(pr, tier, builts, wd, be, cv)
+            plans[pr] = (cfgs, tasks, be, cv)
+        good = {k: v for k, v in builts.items() if not isinstance(v, Exception)}
+        union = {}
+        for pr in props:
+            for (b, item) in plans[pr][1]:
+                union[(b.cfg['name'], item)] = (b, item)
+        tasks, shared = dedupe_and_order(list(union.values()), good)
+        results = {}
+        with concurrent.futures.ThreadPoolExecutor(max_workers=jobs) as ex:
+            futs = {ex.submit(verif.prove, b, fn): (b.cfg['name'], fn) for (b, fn) in tasks}
+            for fut in concurrent.futures.as_completed(futs):
+                results[futs[fut]] = fut.result()
+        wall = time.time() - t0
+        code = 0
+        for pr in props:
+            cfgs, ptasks, be, cv = plans[pr]
+            keys = {(b.cfg['name'], item) for (b, item) in ptasks}
+            res = [results[k] for k in keys if k in results]
+            sh = [x for x in shared if (x.split(' == ')[0].split('/')[0], x.split(' == ')[0].split('/', 1)[1]) in keys]
+            code = max(code, report(pr, tier, cfgs, res, sh, good, be, cv, wall))
+        return code
+    finally:
+        shutil.rmtree(wd, ignore_errors=True)
+
+
+def dedupe_and_order(tasks, builts):
+    if True:
         cost = {}
         tp = os.path.join(ROOT, 'tools', 'timings.json')
         if os.path.exists(tp):
@@ -148,15 +188,13 @@ def run_check(prop, tier, jobs):
                     shared.append('%s/%s == %s/%s' % (b.cfg['name'], item, ref, item))
                     continue
             kept.append((b, item))
-        tasks = kept
-        results = []
-        with concurrent.futures.ThreadPoolExecutor(max_workers=jobs) as ex:
-            futs = [ex.submit(verif.prove, b, fn) for (b, fn) in tasks]
-            for fut in concurrent.futures.as_completed(futs):
-                results.append(fut.result())
+        return kept, shared
+
+
+def report(prop, tier, cfgs, results, shared, builts, build_errors, compile_violations, wall):
+    seed = int(os.environ.get('VERIF_SEED', '0') or 0)
+    if True:
         known = load_known()
-        for nm in sorted(all_spec_names - found_names):
-            build_errors.append('contract target %s exists in no configuration of this tier (renamed or removed?)' % nm)
         violations = []; known_hits = []; undecided = list(build_errors)
         obligations = discharged = 0
         samples = []
@@ -249,7 +287,7 @@ def run_check(prop, tier, jobs):
                 'explanation': 'Obligations are CBMC properties (contract clauses, loop-invariant base/step, assigns, automatic arithmetic and pointer checks, environment preconditions) tagged with this property, over the C text extracted from /repo on this run. Each proof is complete for all inputs of its configuration class (loops closed by loop contracts; no unwinding bound).',
             },
             'assumptions': ASSUMPTIONS,
-            'wall_s': round(time.time() - t0, 1),
+            'wall_s': round(wall, 1),
             'violations': len(violations) + len(compile_violations),
         }
         if obligations == 0 and exit_code == 0:
@@ -258,7 +296,5 @@ def run_check(prop, tier, jobs):
         os.makedirs(os.path.join(ROOT, 'evidence'), exist_ok=True)
         json.dump(ev, open(os.path.join(ROOT, 'evidence', prop + '.json'), 'w'), indent=1)
         print('%s %s: %d proofs, %d/%d obligations of %s discharged, %d violations, %d known findings, %d undecided, %.0fs' % (
-            prop, tier, len(results), discharged, obligations, prop, len(violations), len(printed), len(undecided), time.time() - t0))
+            prop, tier, len(results), discharged, obligations, prop, len(violations), len(printed), len(undecided), wall))
         return exit_code
-    finally:
-        shutil.rmtree(wd, ignore_errors=True)
